@@ -422,6 +422,30 @@ pub fn run(run: &mut Run) -> Finish {
             l.sample(idx, json!({"slice": "E2", "seed_tokens": seeds[seed].tokens, "first_op": format!("{first:?}"), "depth": depth}));
         }
     });
+    // E1 decoded: documents whose running generated column passes 2^32 (the value a decoder keeps
+    // is the wrapped one): whatever positions come out, the map must be ordered and lookups exact
+    let deltas: [i64; 7] = [0, 4, 10, (1 << 32) - 10, (1 << 32) - 4, 1 << 31, -3];
+    let nd = deltas.len() as u64;
+    run.par_slice("E1 decoded: documents of 1..4 one-field segments on each of <= 2 lines, column deltas from {0, 4, 10, 2^32-10, 2^32-4, 2^31, -3} (running columns that pass 2^32), decoded by the real decoder", 6, n_seq_upto(nd, 4) * n_seq_upto(nd, 2), |idx, l| {
+        let k = idx & ((1 << 40) - 1);
+        let a = seq_upto_unrank(nd, 4, k % n_seq_upto(nd, 4));
+        let b = seq_upto_unrank(nd, 2, k / n_seq_upto(nd, 4));
+        let line = |ds: &[usize]| ds.iter().map(|&i| vlq_write(&[deltas[i] as i128])).collect::<Vec<_>>().join(",");
+        let mappings = if b.is_empty() { line(&a) } else { format!("{};{}", line(&a), line(&b)) };
+        let doc = format!("{{\"version\":3,\"sources\":[],\"names\":[],\"mappings\":\"{mappings}\"}}");
+        let case = json!({"kind": "decoded", "document": doc});
+        match guarded(|| sourcemap::SourceMap::from_slice(doc.as_bytes())) {
+            Ok(Ok(sm)) => {
+                let pos: Vec<(u32, u32)> = sm.tokens().map(|t| t.get_dst()).collect();
+                if let Some((sig, what)) = check_map_invariants(&sm, &query_grid(&pos), "decoded-wrapping-columns") {
+                    l.violation(idx, Viol::new(format!("C04/{sig}"), format!("{what}\ndocument: {doc}"), case));
+                }
+                l.case(pos.len() > 1, h64(&("wrap", a.len(), b.len(), pos.windows(2).any(|w| w[0] == w[1]))));
+            }
+            Ok(Err(_)) => l.case(false, 1),
+            Err(p) => l.violation(idx, Viol::new(format!("C04/panic/{}", panic_class(&p)), format!("decoding panicked: {p}\ndocument: {doc}"), case)),
+        }
+    });
     Finish {
         level: "model_checking",
         rule: "E1: every multiset of positions of the stated space in every insertion order through builder.add, builder.add_raw and SourceMap::new, each token with a unique original position so that 'which token' is observable; queries = every token position, its neighbours, following/preceding lines, (0,MAX), (MAX,MAX); runs of equal keys of every size up to 9/12 in three blocks and single runs to 200. E2: depth-first enumeration of every history of map-producing operations up to the stated depth from 38 seed maps, executed on real maps (clone + operation), invariants and a lookup grid evaluated in every reached state; no state merging (states = distinct observations reached, counted only). Oracle: linear-scan greatest-lower-bound with first-of-equals in the map's own iteration order; non-decreasing positions; get_token(i) = i-th iterated token; get_token(count) = None. transitions = operations executed; traces = complete histories.".into(),
@@ -446,6 +470,17 @@ pub fn recheck(case: &Value) -> Vec<Viol> {
                 return check_map_invariants(&sm0, &query_grid(&pos), "seed").map(|(s, w)| Viol::new(format!("C04/{s}"), w, case.clone())).into_iter().collect();
             }
             check_history(seed, &ops)
+        }
+        Some("decoded") => {
+            let doc = case["document"].as_str().unwrap_or("");
+            match guarded(|| sourcemap::SourceMap::from_slice(doc.as_bytes())) {
+                Ok(Ok(sm)) => {
+                    let pos: Vec<(u32, u32)> = sm.tokens().map(|t| t.get_dst()).collect();
+                    check_map_invariants(&sm, &query_grid(&pos), "decoded-wrapping-columns").map(|(s, w)| Viol::new(format!("C04/{s}"), w, case.clone())).into_iter().collect()
+                }
+                Ok(Err(_)) => vec![],
+                Err(p) => vec![Viol::new(format!("C04/panic/{}", panic_class(&p)), p, case.clone())],
+            }
         }
         _ => vec![],
     }
